@@ -89,6 +89,9 @@ type Store struct {
 	// included) of the call that misbehaves; negative = none.
 	FaultAt   int
 	FaultKind int
+	// ReadFaultErr, if set, is the error a faulted Get or List answers with
+	// instead of the generic server error (e.g. a REST-mapper no-match error).
+	ReadFaultErr error
 	calls     int
 	Faulted   bool
 
@@ -407,6 +410,9 @@ func (s *Store) Get(_ context.Context, key client.ObjectKey, obj client.Object, 
 	if f := s.fault(); f != FaultNone {
 		c.Err = true
 		s.log(c)
+		if s.ReadFaultErr != nil {
+			return s.ReadFaultErr
+		}
 		return errInjected
 	}
 	i := s.find(group, kind, key.Namespace, key.Name)
@@ -431,6 +437,9 @@ func (s *Store) List(_ context.Context, list client.ObjectList, opts ...client.L
 	if f := s.fault(); f != FaultNone {
 		c.Err = true
 		s.log(c)
+		if s.ReadFaultErr != nil {
+			return s.ReadFaultErr
+		}
 		return errInjected
 	}
 	lo := &client.ListOptions{}
